@@ -15,7 +15,7 @@ LAYERS = {
         'crash_props': ['C18'],
     },
     'l2': {
-        'n': {'quick': 2500, 'thorough': 30000},
+        'n': {'quick': 4000, 'thorough': 30000},
         'shards': {'quick': 1, 'thorough': 12},
         'extra': {'quick': [], 'thorough': ['-conc', '4']},
         'crash_props': ['C18'],
